@@ -265,7 +265,11 @@ class Run(RunBase):
             [{"op": "regen", "N": rng.choice(self.w["ranges"])}],
             [{"op": "regrid", "n": rng.choice(self.w["grids"]), "adopt": rng.random() < 0.6}],
             [{"op": "foreign", "k": k1, "pt": rng.randrange(16), "scribble": True, "x": 2.0, "accessor": False, "setrates": False},
-             {"op": "clearcache"}]))
+             {"op": "clearcache"}],
+            # away to another range, change the k-mesh there, and back
+            [{"op": "regen", "N": self.w["ranges"][-1]}, {"op": "regrid", "n": self.w["grids"][-1], "adopt": True},
+             {"op": "regen", "N": self.w["ranges"][0]}, {"op": "regrid", "n": self.w["grids"][0], "adopt": rng.random() < 0.5},
+             {"op": "regen", "N": self.w["ranges"][-1]}]))
         tail_ = [call(k2)] if rng.random() < 0.6 else [call(k2), call(k1)]
         if self.prop == "C13":
             mid = [self.gen_fork(rng)]
@@ -964,6 +968,13 @@ class Run(RunBase):
                 tj.append(g.gT_ij[0][0])
                 tj.append(g.gT_ij[-1][0])
             t = tj[arg % len(tj)]
+            if arg % 7 == 3:
+                # expansions that are identically zero, in whole or in part: the blank block matrix of the public
+                # T.zeros(), an exact a - a, and one with a single block zeroed -- zero is a value like any other
+                nsite = t.coefflist[0][2].shape[-1] if t.coefflist else 1
+                t = (T.zeros(-2, 2, (nsite, nsite)), t - t,
+                     T([(n, l, (c * 0 if k == 0 else c)) for k, (n, l, c) in enumerate(t.coefflist)]))[(arg // 7) % 3]
+                self.probes["taylor-zero-blocks"] += 1
             if any(n < 0 for n, l, c in t.coefflist):
                 self.probes["taylor-negative-power"] += 1
             t2 = self.roundtrip(t.addhdf5, T.loadhdf5)
